@@ -2,6 +2,7 @@
 package c19
 
 import (
+	"bytes"
 	"encoding/json"
 	"errors"
 	"fmt"
@@ -15,13 +16,14 @@ import (
 	"github.com/rs/zerolog"
 	zlog "github.com/rs/zerolog/log"
 	"pgregory.net/rapid"
+	applog "verif/harness/c19/log"
 	"verif/harness/ev"
 	"verif/harness/jsonref"
 )
 
 //go:generate python3 gen_sites.py
 
-const rule = "cases = (call site x caller mechanism x skip j x wrapper depth x other hooks): call sites are generated one per source line (17 entry points x 6 finalizers x {Event.Caller(), Caller(j), CallerSkipFrame(j)+Caller(), with fields} and x {Context.Caller, +CallerSkipFrame(j)}; Print/Printf/Println/Write on a Logger, package log, std log through Logger.Write); context mechanisms: Context.Caller, CallerWithSkipFrameCount(2+j), global CallerSkipFrameCount=2+j; the whole product is enumerated, plus rapid sequences on shared loggers. oracle = runtime.Callers captured by mark() on the same source line, frame j. non-trivial = j>=1, a Print/Write entry point, or >=2 hooks; distinct = (site, mechanism, j, depth, hooks)"
+const rule = "cases = (call site x caller mechanism x skip j x wrapper depth x other hooks): call sites are generated one per source line (17 entry points x 6 finalizers x {Event.Caller(), Caller(j), CallerSkipFrame(j)+Caller(), with fields} and x {Context.Caller, +CallerSkipFrame(j)}; Print/Printf/Println/Write on a Logger, package log, std log through Logger.Write; Logger.Write called from wrappers inside a package that is itself named log); context mechanisms: Context.Caller, CallerWithSkipFrameCount(2+j), global CallerSkipFrameCount=2+j; the whole product is enumerated, plus rapid sequences on shared loggers. oracle = runtime.Callers captured by mark() on the same source line, frame j. non-trivial = j>=1, a Print/Write entry point, or >=2 hooks; distinct = (site, mechanism, j, depth, hooks)"
 
 var rec = ev.New("C19", rule)
 
@@ -347,6 +349,37 @@ func firstSite(mech string) int {
 		}
 	}
 	return 0
+}
+
+// A direct Logger.Write call made by a package that is itself named "log" (an application's own
+// logging helpers): the caller field names that statement, or the frame k above it.
+func TestWriteFromPackageNamedLog(t *testing.T) {
+	var n int64
+	for depth := 0; depth <= 3; depth++ {
+		for k := 0; k <= 2; k++ {
+			var out bytes.Buffer
+			var l zerolog.Logger
+			if k == 0 {
+				l = zerolog.New(&out).With().Caller().Logger()
+			} else {
+				l = zerolog.New(&out).With().CallerWithSkipFrameCount(2 + k).Logger()
+			}
+			applog.WriteWrapped(&l, depth)
+			var evt map[string]interface{}
+			if err := json.Unmarshal(out.Bytes(), &evt); err != nil {
+				t.Fatalf("HARNESS-ERROR: %v: %q", err, out.Bytes())
+			}
+			n++
+			rec.Case([]byte(fmt.Sprint("logpkg", depth, k)), true, "write-from-package-log")
+			got, _ := evt["caller"].(string)
+			if k >= len(applog.Marked) || got != applog.Marked[k] {
+				c := map[string]interface{}{"site": "package log: Logger.Write", "wrapper_depth": depth, "frames_up": k}
+				ev.SaveReplay("C19-logpkg", c)
+				fmt.Printf("VERIF-FAIL: Logger.Write called from a package named log (wrapper depth %d, %d frames up): caller=%q, want %q\n", depth, k, got, applog.Marked[k])
+				t.Fatalf("caller=%q, want %q (frames above the Write statement: %v)", got, applog.Marked[k], applog.Marked)
+			}
+		}
+	}
 }
 
 func TestReplay(t *testing.T) {
